@@ -184,7 +184,7 @@ def layout_obs(prefix, tier):
                     for sq in (0, 1):
                         # option values are enumerated by the generator (each extra symbolic option multiplied the executor's time by ~5);
                         # the leaves stay symbolic.  The line list does not depend on newlinechar (final join: C16-JOIN; comments: C14).
-                        pre = conj([f"okc({n})" for n, _ in cs] + [f"(ni >= 0) & (ni < {2 if tier == 'quick' else 4})", f"indent == {ind}",
+                        pre = conj([f"okc({n})" for n, _ in cs] + [f"(ni >= 0) & (ni < 2)", f"indent == {ind}",
                                                                    "tab" if tab else "not tab", "sq" if sq else "not sq"])
                         body = "n = 0 if ni == 0 else (7 if ni == 1 else (-3 if ni == 2 else 2.5))\n" + LAYOUT.format(S=chr_expr("c", 2))
                         src = PRELUDE + f"NL = '\\n'\nEC = {bool(ec)}\nAL = {bool(al)}\n" + harness("h", params, pre, body)
